@@ -24,6 +24,13 @@ mod sub;
 /// | Byte    | Byte    | Byte   |
 #[macro_export]
 macro_rules! apply_math_bin_op_if_applicable {
+    // `+`, `-` and `*` on the integer kinds are checked in every build: when the exact result does
+    // not fit the result type the program stops (as it always did in a debug build) instead of
+    // continuing with a wrapped value in a release build.
+    (@int + $x:expr, $y:expr) => { $x.checked_add($y).expect("integer overflow in `+`") };
+    (@int - $x:expr, $y:expr) => { $x.checked_sub($y).expect("integer overflow in `-`") };
+    (@int * $x:expr, $y:expr) => { $x.checked_mul($y).expect("integer overflow in `*`") };
+    (@int $symbol:tt $x:expr, $y:expr) => { $x $symbol $y };
     ($lhs:ident $symbol:tt $rhs:ident) => {{
         let x = apply_math_bin_op_if_applicable!(@no_f64 $lhs $symbol $rhs);
 
@@ -50,15 +57,15 @@ macro_rules! apply_math_bin_op_if_applicable {
         use $crate::*;
 
         match ($lhs, $rhs) {
-            (Int(x), Int(y)) => Some(int!(x $symbol y)),
-            (Int(x), BigInt(y)) => Some(bigint!((*x as i128) $symbol y)),
-            (Int(x), Byte(y)) => Some(int!(*x $symbol *y as i32)),
-            (BigInt(x), BigInt(y)) => Some(bigint!(x $symbol y)),
-            (BigInt(x), Int(y)) => Some(bigint!(x $symbol *y as i128)),
-            (BigInt(x), Byte(y)) => Some(bigint!(x $symbol *y as i128 )),
-            (Byte(x), Byte(y)) => Some(byte!(x $symbol y)),
-            (Byte(x), Int(y)) => Some(int!((*x as i32) $symbol *y)),
-            (Byte(x), BigInt(y)) => Some(bigint!((*x as i128) $symbol *y)),
+            (Int(x), Int(y)) => Some(int!(apply_math_bin_op_if_applicable!(@int $symbol (*x), (*y)))),
+            (Int(x), BigInt(y)) => Some(bigint!(apply_math_bin_op_if_applicable!(@int $symbol (*x as i128), (*y)))),
+            (Int(x), Byte(y)) => Some(int!(apply_math_bin_op_if_applicable!(@int $symbol (*x), (*y as i32)))),
+            (BigInt(x), BigInt(y)) => Some(bigint!(apply_math_bin_op_if_applicable!(@int $symbol (*x), (*y)))),
+            (BigInt(x), Int(y)) => Some(bigint!(apply_math_bin_op_if_applicable!(@int $symbol (*x), (*y as i128)))),
+            (BigInt(x), Byte(y)) => Some(bigint!(apply_math_bin_op_if_applicable!(@int $symbol (*x), (*y as i128)))),
+            (Byte(x), Byte(y)) => Some(byte!(apply_math_bin_op_if_applicable!(@int $symbol (*x), (*y)))),
+            (Byte(x), Int(y)) => Some(int!(apply_math_bin_op_if_applicable!(@int $symbol (*x as i32), (*y)))),
+            (Byte(x), BigInt(y)) => Some(bigint!(apply_math_bin_op_if_applicable!(@int $symbol (*x as i128), (*y)))),
 
             _ => None
         }
